@@ -182,7 +182,11 @@ func (g *genState) seekKey() *K {
 
 func (g *genState) fullScan(p []int) {
 	// complete forward and backward scans, always among the cursor checks
-	n := len(g.sim.Cur.At(Path(p)).Keys())
+	b := g.sim.Cur.At(Path(p))
+	if b == nil {
+		return // the bucket does not exist in this transaction's view
+	}
+	n := len(b.Keys())
 	fw := []CurCall{{C: "F"}}
 	bw := []CurCall{{C: "L"}}
 	for i := 0; i < n+1; i++ {
@@ -545,6 +549,117 @@ func GenerateBigFree(seed int64, caseNo int, pageSize int, opts OpenOpts) *Progr
 			g.emit(Step{Op: "reopen", Opts: &o})
 		}
 	}
+	g.emit(Step{Op: "close"})
+	return g.p
+}
+
+// GenerateManyBuckets builds a case with hundreds of sibling buckets under one parent (the root, a top-level
+// bucket or a nested one): leaf and branch pages full of bucket elements, most of them inline, some paged,
+// with sequences; then mass deletion, moves to another parent, keys interleaved with the bucket names, deletion
+// of the whole parent, re-creation - across commits, rollbacks and reopens, with cursor scans over the parent.
+func GenerateManyBuckets(seed int64, caseNo int, pageSize int, opts OpenOpts) *Program {
+	r := rand.New(rand.NewSource(seed*1000003 + int64(caseNo)*7919 + 13))
+	cfg := Config{Profile: "mixed", PageSize: pageSize, KeySpace: 60, NoBigKeys: true}
+	cfg.defaults()
+	g := &genState{r: r, cfg: cfg, sim: NewSim(), p: &Program{Name: "manybuckets", Seed: seed, Case: caseNo}}
+	opts.PageSize = pageSize
+	g.emit(Step{Op: "open", Opts: &opts})
+	var parent []int // nil = the root
+	switch r.Intn(3) {
+	case 1:
+		parent = []int{0}
+	case 2:
+		parent = []int{0, 2}
+	}
+	endTx := func() {
+		if r.Intn(6) == 0 {
+			g.emit(Step{Op: "rollback"})
+		} else {
+			g.emit(Step{Op: "commit"})
+		}
+		if r.Intn(4) == 0 {
+			g.emit(Step{Op: "close"})
+			o := opts
+			g.emit(Step{Op: "reopen", Opts: &o})
+		}
+	}
+	ensureParents := func() {
+		g.emit(Step{Op: "createIf", N: 0})
+		g.emit(Step{Op: "createIf", N: 1})
+		g.emit(Step{Op: "createIf", P: []int{0}, N: 2})
+	}
+	sub := func(i int) []int { return append(append([]int{}, parent...), 1000+i) }
+	nb := 120 + r.Intn(380)
+	// tx 1: create the siblings
+	g.emit(Step{Op: "begin", W: true})
+	ensureParents()
+	for i := 0; i < nb; i++ {
+		g.emit(Step{Op: "create", P: parent, N: 1000 + i})
+		switch r.Intn(8) {
+		case 0: // paged child
+			for k := 0; k < 20+r.Intn(40); k++ {
+				g.emit(Step{Op: "put", P: sub(i), K: &K{ID: k}, V: &V{Seed: r.Uint32(), Len: pageSize / 16}})
+			}
+		case 1, 2, 3: // inline child with a few keys
+			for k := 0; k < 1+r.Intn(3); k++ {
+				g.emit(Step{Op: "put", P: sub(i), K: &K{ID: r.Intn(50)}, V: &V{Seed: r.Uint32(), Len: r.Intn(30)}})
+			}
+		}
+		if r.Intn(5) == 0 {
+			g.emit(Step{Op: "setSeq", P: sub(i), U: uint64(i) + 1})
+		}
+		if len(parent) > 0 && r.Intn(10) == 0 {
+			g.emit(Step{Op: "put", P: parent, K: &K{ID: r.Intn(60)}, V: &V{Seed: r.Uint32(), Len: r.Intn(80)}}) // plain keys between bucket elements
+		}
+	}
+	g.fullScan(parent)
+	endTx()
+	// tx 2: delete every third, move some to another parent, touch others (dirty nodes before later deletes)
+	g.emit(Step{Op: "begin", W: true})
+	ensureParents()
+	for i := 0; i < nb; i++ {
+		switch {
+		case i%3 == 0:
+			g.emit(Step{Op: "delBucket", P: parent, N: 1000 + i})
+		case i%11 == 1:
+			g.emit(Step{Op: "move", P: parent, N: 1000 + i, D: []int{1}})
+		case i%7 == 2:
+			g.emit(Step{Op: "put", P: sub(i), K: &K{ID: 77}, V: &V{Seed: r.Uint32(), Len: 40}})
+		}
+	}
+	if g.sim.Cur.At(Path(parent)) != nil {
+		g.emit(Step{Op: "cursor", P: parent, Cur: g.cursorCalls(30)})
+	}
+	g.fullScan(parent)
+	endTx()
+	// tx 3: read-only look, then delete the whole parent (or, for the root, a run of siblings) and re-create a few
+	g.emit(Step{Op: "begin", W: false})
+	g.fullScan(parent)
+	g.emit(Step{Op: "dump"})
+	g.emit(Step{Op: "rollback"})
+	g.emit(Step{Op: "begin", W: true})
+	ensureParents()
+	if r.Intn(2) == 0 {
+		// dirty the parent first: the deletion then walks materialised nodes
+		g.emit(Step{Op: "createIf", P: parent, N: 1000 + nb + 1})
+	}
+	if len(parent) > 0 && r.Intn(3) > 0 {
+		g.emit(Step{Op: "delBucket", P: parent[:len(parent)-1], N: parent[len(parent)-1]})
+		g.emit(Step{Op: "createIf", P: parent[:len(parent)-1], N: parent[len(parent)-1]})
+	} else {
+		for i := 0; i < nb; i += 1 + r.Intn(2) {
+			g.emit(Step{Op: "delBucket", P: parent, N: 1000 + i})
+		}
+	}
+	for i := 0; i < 10; i++ {
+		g.emit(Step{Op: "createIf", P: parent, N: 1000 + r.Intn(nb)})
+	}
+	g.fullScan(parent)
+	endTx()
+	g.emit(Step{Op: "begin", W: true})
+	g.emit(Step{Op: "createIf", N: 1})
+	g.emit(Step{Op: "put", P: []int{1}, K: &K{ID: 1}, V: &V{Seed: 1, Len: 10}})
+	g.emit(Step{Op: "commit"})
 	g.emit(Step{Op: "close"})
 	return g.p
 }
